@@ -5,6 +5,8 @@ import (
 	"reflect"
 	"runtime"
 	"runtime/debug"
+	"sort"
+	"strings"
 	"unsafe"
 
 	"github.com/fogfish/golem/optics"
@@ -602,4 +604,64 @@ func JoinHeads() {
 		Rec.Count("put_get_observations", 2)
 	}
 	End(c, "C04/joinheads", true)
+}
+
+// JoinComputedMap: the outer optic of a Join does not hand out a map stored in the structure but one it computes
+// (labels kept as "k=v;k=v" text, seen as a map through a BiMap); the inner optic is a map lens. Put has to reach the
+// text; the intermediate map is not the container's to share.
+func JoinComputedMap() {
+	if !Want("C04", "C04-joinmapview") {
+		return
+	}
+	c := Case{ID: "C04-joinmapview", Site: "Join/computed-map", Struct: "struct{ID int; Labels string; Tail int}", Req: "Join(BiMap(Labels, decode, encode), NewLensM(key))", Expect: "Put rewrites the text, Get reads it"}
+	if !Begin(c) {
+		return
+	}
+	type rec struct {
+		ID     int
+		Labels string
+		Tail   int
+	}
+	decode := func(s string) map[string]string {
+		m := map[string]string{}
+		for _, kv := range strings.Split(s, ";") {
+			if k, v, ok := strings.Cut(kv, "="); ok {
+				m[k] = v
+			}
+		}
+		return m
+	}
+	encode := func(m map[string]string) string {
+		keys := make([]string, 0, len(m))
+		for k := range m {
+			keys = append(keys, k)
+		}
+		sort.Strings(keys)
+		parts := make([]string, len(keys))
+		for i, k := range keys {
+			parts[i] = k + "=" + m[k]
+		}
+		return strings.Join(parts, ";")
+	}
+	view := optics.BiMap(optics.ForProduct1[rec, string]("Labels"), decode, encode)
+	for round := 0; round < 40; round++ {
+		key := []string{"a", "b", "zz"}[round%3]
+		l := optics.Join(view, optics.NewLensM[map[string]string, string, string](key))
+		s := rec{ID: 7, Labels: "a=1;b=2", Tail: 9}
+		want := decode(s.Labels)
+		if got := l.Get(&s); got != want[key] {
+			vio("C04", c, "joinhead-get", "Get(%q) = %q, the text holds %q", key, got, want[key])
+		}
+		v := fmt.Sprint("v", round)
+		l.Put(&s, v)
+		want[key] = v
+		if s.ID != 7 || s.Tail != 9 || s.Labels != encode(want) {
+			vio("C04", c, "joinhead-put", "after Put(%q, %q) the structure is %+v, the text should read %q", key, v, s, encode(want))
+		}
+		if got := l.Get(&s); got != v {
+			vio("C04", c, "putget", "Get after Put(%q, %q) = %q", key, v, got)
+		}
+		Rec.Count("put_get_observations", 1)
+	}
+	End(c, "C04/joinmapview", true)
 }
